@@ -61,7 +61,7 @@ pub fn check_samples<R: Read + Seek>(reader: &mut Mp4Reader<R>, m: &Movie, truth
                 Ok(None) => fail!(format!("{}:none", p), "track {} sample {} of {}: read_sample returned None", tt.id, k, n),
                 Err(e) => fail!(format!("{}:read-err", p), "track {} sample {} of {}: read_sample error {}", tt.id, k, n, e),
             };
-            let want_bytes = crate::refmp4::movie::expected_bytes(m, ti, k - 1, st.size);
+            let want_bytes = st.raw.clone().unwrap_or_else(|| crate::refmp4::movie::expected_bytes(m, ti, k - 1, st.size));
             ensure!(s.bytes.len() == want_bytes.len(), format!("{}:size", p), "track {} sample {}: {} bytes, expected {}", tt.id, k, s.bytes.len(), want_bytes.len());
             ensure!(s.bytes[..] == want_bytes[..], format!("{}:bytes", p), "track {} sample {}: payload differs (read at wrong offset?)", tt.id, k);
             ensure!(s.start_time == st.start, format!("{}:start", p), "track {} sample {}: start_time {} != {}", tt.id, k, s.start_time, st.start);
@@ -80,7 +80,7 @@ pub fn check_samples<R: Read + Seek>(reader: &mut Mp4Reader<R>, m: &Movie, truth
             match guarded("read_sample", || reader.read_sample(tt.id, k))? {
                 Ok(Some(s)) => {
                     ensure!(s.start_time == st.start && s.duration == st.dur && s.rendering_offset == st.cts && s.bytes.len() == st.size as usize, format!("{}:reread", p), "track {} sample {} read again after later samples: (start {}, dur {}, cts {}, {} bytes), expected ({}, {}, {}, {})", tt.id, k, s.start_time, s.duration, s.rendering_offset, s.bytes.len(), st.start, st.dur, st.cts, st.size);
-                    let want_bytes = crate::refmp4::movie::expected_bytes(m, ti, k - 1, st.size);
+                    let want_bytes = st.raw.clone().unwrap_or_else(|| crate::refmp4::movie::expected_bytes(m, ti, k - 1, st.size));
                     ensure!(s.bytes[..] == want_bytes[..], format!("{}:reread-bytes", p), "track {} sample {} read again after later samples: payload differs", tt.id, k);
                 }
                 Ok(None) => fail!(format!("{}:reread-none", p), "track {} sample {} read again after later samples: None", tt.id, k),
